@@ -35,11 +35,17 @@ class VectorSet:
         self.stats.append(res.stats)
 
 
-def generate(tier, want_sim=True):
-    """Run the TLC configurations of the tier and return a VectorSet."""
+def generate(tier, want_sim=True, light=False):
+    """Run the TLC configurations of the tier and return a VectorSet.
+    light: the smaller quick configuration used by the C++ legs, whose cost
+    is dominated by compiling the generated code."""
     vs = VectorSet()
     sd = seed()
-    if tier == "quick":
+    if tier == "quick" and light:
+        runs = [("InnerSmall", consts("InnerSmall", 2, max_len=1), None),
+                ("InnerDef", consts("InnerDef", 1), None),
+                ("InnerDef", consts("InnerDef", 4, max_types=2, max_len=2), 40)]
+    elif tier == "quick":
         runs = [("InnerSmall", consts("InnerSmall", 2), None),
                 ("InnerDef", consts("InnerDef", 1), None)]
         if want_sim:
@@ -173,3 +179,55 @@ def vacuity_guard():
         raise MachineryError("vacuity guard: TLC did not rediscover the documented greedy-tail exception: %s"
                              % res.error)
     return res.stats
+
+
+# ---------------------------------------------------------------------------
+# given schemas (spec/WireGiven.tla): generation and trace validation
+# ---------------------------------------------------------------------------
+GIVEN_CONSTS = {"Inner": "<- NoInner", "MaxLen": 2, "MaxMembers": 0, "MaxTypes": 0, "Widths": "{}",
+                "FixN": 0, "LimN": 0}
+
+
+def _write_given(items):
+    d = scratch_dir("given")
+    path = os.path.join(d, "given.json")
+    with open(path, "w") as f:
+        json.dump(items, f)
+    return path
+
+
+def generate_given(envs, max_len=2):
+    """All structural values (lengths <= max_len) of each given environment.
+    Returns (groups, stats): one group per environment, vectors as in VEC."""
+    items = [{"env": e, "walk": [], "obsL": [], "obsB": []} for e in envs]
+    path = _write_given(items)
+    c = dict(GIVEN_CONSTS, MaxLen=max_len)
+    res = run_tlc("WireGiven", c, invariants=["AlignedEmit", "ZeroFillForward", "Mirror", "FixedLength", "GDump"],
+                  prefix=("GVEC", "ILLEGAL"), spec="GSpec", env={"GIVEN_FILE": path})
+    groups = {}
+    for tag, body in res.lines:
+        if tag == "ILLEGAL":
+            raise MachineryError("given environment %s is not legal per the specification" % body)
+        v = json.loads(body)
+        g = groups.setdefault(v["gid"], {"gid": "given%d" % v["gid"], "inner": "given", "defs": envs[v["gid"] - 1],
+                                         "vectors": [], "lay": v["lay"]})
+        g["vectors"].append(v)
+    return [groups[k] for k in sorted(groups)], res.stats
+
+
+def validate_traces(items):
+    """items: [{env, walk, obsL, obsB}].  Returns (verdicts, illegal, stats):
+    verdicts[i] = TV record or None when the walk is not a behaviour of the
+    specification at all (no finished behaviour)."""
+    path = _write_given(items)
+    res = run_tlc("WireGiven", GIVEN_CONSTS, invariants=["AlignedEmit", "ZeroFillForward", "Mirror", "TDump"],
+                  prefix=("TV", "ILLEGAL"), spec="TSpec", env={"GIVEN_FILE": path})
+    verdicts = [None] * len(items)
+    illegal = []
+    for tag, body in res.lines:
+        if tag == "ILLEGAL":
+            illegal.append(int(body) - 1)
+        else:
+            v = json.loads(body)
+            verdicts[v["gid"] - 1] = v
+    return verdicts, illegal, res.stats
